@@ -104,6 +104,26 @@ CHECKS = {
         "Trusted: Coq kernel; Reals axioms + classic; jax.random.categorical = arg-max of logits + Gumbel noise and jax.random.bernoulli = (u < p) are tied on every case, not proved; the epsilon bound on the departure probability is a statement about the uniform draw (explored with Hoeffding slack).",
         "DESIGN.md §5 C16",
     ),
+    "C11": (
+        "Coq proof (non-interference of observers for ARBITRARY core and callback functions; freshness of callback key paths) + metamorphic runs of the real learn() of all five algorithms",
+        "Theorems: for any collection/training functions and any two observers of any state types the trained state after learn() is the same; every key handed to an observer (training start/end, reset, iteration, step) differs from the keys the core uses. "
+        "Tie/search: PPO, A2C, REINFORCE, DQN, SAC learn(): same inputs twice bit-identical, different key differs, {LoggingCallback+recording backend, ProgressBar, list} bit-identical to no observer, input policy untouched; keys received by step callbacks of the real collect_rollout equal the model's callback key paths.",
+        "Trusted: Coq kernel (closed under the global context). NOT proved: bit-reproducibility of XLA and 'different keys give different runs' (runtime/statistical facts, observed); that the real core functions take no callback state as input is the architecture assumption the theorem is about (observed by the metamorphic runs).",
+        "DESIGN.md §5 C11",
+    ),
+    "C17": (
+        "Fail-closed Python-ast translator regenerating Coq definitions from /repo on every run + Coq proofs over R that lerax's formulas equal hand-transcribed Gymnasium references (validated against the installed Gymnasium each run) + numeric differential against Gymnasium v5 MuJoCo",
+        "32 theorems for all states/actions: CartPole, MountainCar, ContinuousMountainCar, Acrobot vector fields, limits/clip, reward for every transition incl. the goal step, termination predicate, spaces and initial ranges equal Gymnasium's; one explicit-Euler step of the lerax CartPole field is Gymnasium's euler update. "
+        "Tie: the translator's IR is evaluated against the real lerax methods; Q twins vs lerax and vs Gymnasium.step in Coq; MuJoCo: lerax reward/terminal/observation/info on (qpos,qvel) pairs produced by Gymnasium v5 (3 envs quick, 11 thorough).",
+        "Trusted: Coq kernel; Reals axioms; the translator (front end validated numerically each run, printer trusted); the Gymnasium transcription (validated numerically each run). NOT proved: closeness of trajectories under different integrators, float rounding, MuJoCo/MJX physics agreement (tolerances).",
+        "DESIGN.md §5 C17",
+    ),
+    "C18": (
+        "Coq proof (round trip, mismatch => error, never a partial load, path rule, file-system frame) on a leaf-record model + bitwise differential check of real save/load over policy classes x spaces x architectures x path spellings evaluated in Coq",
+        "22 theorems closed under the global context for all leaf lists, shapes, payloads, paths and file systems. Tie: serialize/deserialize of MLPActorCriticPolicy/MLPQPolicy/MLPSACPolicy over all supported space kinds, 14 path spellings incl. not-yet-existing directories, 70 mismatching architecture pairs; every leaf and output compared bitwise.",
+        "Trusted: Coq kernel; the .npy byte format and per-leaf shape/dtype check are equinox's (modelled as the interface, tied by the check). One known finding (Python float fields rounded to float32 by the debug callback) is listed in known_findings.json.",
+        "DESIGN.md §5 C18",
+    ),
 }
 
 NOT_YET = "check not built yet in this round (planned: see DESIGN.md §5)"
